@@ -2,6 +2,7 @@ package main
 
 import (
 	"fmt"
+	"strconv"
 	nurl "net/url"
 	"strings"
 
@@ -342,7 +343,32 @@ func runPager(c Case, e *env) []Event {
 	if ev, bad := outcomeEvent(c.ID, out); bad {
 		return []Event{call, ev}
 	}
-	obs := map[string]interface{}{"err": out.err != nil || out.res == nil, "next": 0, "prev": 0,
+	// the scorer's verdict on every candidate link of a conventional pager (verif hook PNScore)
+	scores := []map[string]interface{}{}
+	if kind == "conv" && algo == "prevnext" {
+		for _, h := range out.hooks {
+			if h.Name != "PNScore" {
+				continue
+			}
+			kv := hookKV(h)
+			href, text := fmt.Sprint(kv["href"]), strings.TrimSpace(fmt.Sprint(kv["text"]))
+			target, ok := urlIndex[href]
+			if !ok {
+				target = -1
+			}
+			lk := "other"
+			if _, err := strconv.Atoi(text); err == nil {
+				lk = "num"
+			} else if strings.Contains(text, "Next") {
+				lk = "next"
+			} else if strings.Contains(text, "Prev") {
+				lk = "prev"
+			}
+			sc, _ := kv["score"].(int)
+			scores = append(scores, map[string]interface{}{"next": kv["next"] == true, "target": target, "kind": lk, "score": sc})
+		}
+	}
+	obs := map[string]interface{}{"err": out.err != nil || out.res == nil, "next": 0, "prev": 0, "scores": scores,
 		"nextfacts": linkFacts("", pu, targets, trimTargets), "prevfacts": linkFacts("", pu, targets, trimTargets), "nexturl": "", "prevurl": ""}
 	if out.err == nil && out.res != nil {
 		nx, pv := out.res.PaginationInfo.NextPage, out.res.PaginationInfo.PrevPage
